@@ -3,7 +3,7 @@
 From Coq Require Import List NArith Arith.
 From DS Require Import Gen.Constants Base.Bytes Base.Word32 Model.Chunker
      Model.PChunker Base.Hash Base.Sched
-     Proofs.RollProofs Proofs.ChunkerSpecProofs Proofs.ChunkerImplProofs Proofs.PChunkerMain Proofs.PChunkerOld.
+     Proofs.RollProofs Proofs.ChunkerSpecProofs Proofs.ChunkerImplProofs Proofs.PChunkerMain Proofs.PChunkerOld Proofs.PChunkerLive.
 Import ListNotations.
 
 (* The incremental hash update of Chunker.Next (rotate, xor out the byte leaving the window
@@ -118,3 +118,30 @@ Example C02_example :
   map (fun sb => length (snd sb)) (chunk_impl {| r_data := ex_data; r_frags := repeat 1 400; r_eager := true |} 48 120 7)
   /\ 2 < length (chunk_all 48 120 7 ex_data).
 Proof. vm_compute. split; [reflexivity|repeat constructor]. Qed.
+
+(* Liveness of the same protocol.  (1) From the initial state, after ANY schedule prefix, while the
+   collector is not done some thread is enabled: the protocol cannot deadlock. *)
+Theorem C02_pchunk_never_stuck : forall (H : bytes -> id) min max d data, W <= min -> min <= max -> 0 < max ->
+  forall n, 1 <= n -> forall sched : list ptid,
+  let s := run (pstep H min max d data false) sched (pinit max data n) in
+  k_done (p_c s) = false -> (exists t, pstep H min max d data false s t <> None) \/ Collision H.
+Proof. exact pchunk_never_stuck. Qed.
+Print Assumptions C02_pchunk_never_stuck.
+
+(* (2) Every run made of enabled steps only has at most live_bound = n'*(7*size+3)+1 steps
+   (n' the effective worker count): termination under every scheduler, no fairness needed. *)
+Theorem C02_pchunk_run_bounded : forall (H : bytes -> id) min max d data, W <= min -> min <= max -> 0 < max ->
+  forall n, 1 <= n -> forall (sched : list ptid) s',
+  run_strict (pstep H min max d data false) sched (pinit max data n) = Some s' ->
+  length sched <= live_bound max data n \/ Collision H.
+Proof. exact pchunk_run_bounded. Qed.
+Print Assumptions C02_pchunk_run_bounded.
+
+(* (3) Hence a run of enabled steps that cannot be extended ends with the single-stream index. *)
+Theorem C02_pchunk_maximal_run_complete : forall (H : bytes -> id) min max d data, W <= min -> min <= max -> 0 < max ->
+  forall n, 1 <= n -> forall (sched : list ptid) s',
+  run_strict (pstep H min max d data false) sched (pinit max data n) = Some s' ->
+  (forall t, pstep H min max d data false s' t = None) ->
+  k_out (p_c s') = seq_index min max d data \/ Collision H.
+Proof. exact pchunk_maximal_run_complete. Qed.
+Print Assumptions C02_pchunk_maximal_run_complete.
